@@ -199,9 +199,7 @@ type CellIDSnapper struct {
 
 // NewCellIDSnapper returns a snap function with the default level set.
 func NewCellIDSnapper() CellIDSnapper {
-	return CellIDSnapper{
-		level: MaxLevel,
-	}
+	return CellIDSnapperForLevel(MaxLevel)
 }
 
 // CellIDSnapperForLevel returns a snap function at the given level.
